@@ -45,6 +45,7 @@ func verifHarnessC06() {
 	verifAssert(err == nil, "C06.open-err")
 	m := newVModel(len(kp.keys))
 	ops := vOpsFromMask(verifParam("ops"))
+	vPrefill(db, kp, m, "C06")
 	// premerge: an earlier merge generation (history, Merge, adopting restart) before the one under test
 	if pm := verifParam("premerge"); pm > 0 {
 		for step := 0; step < pm; step++ {
